@@ -210,6 +210,9 @@ def run_block(stmts, env):
                 and isinstance(s.targets[0].value, ast.Name) and isinstance(env.get(s.targets[0].value.id), dict):
             env[s.targets[0].value.id][ev(s.targets[0].slice, env)] = ev(s.value, env)
             continue
+        if isinstance(s, ast.AugAssign) and isinstance(s.target, ast.Name) and s.target.id in env and isinstance(s.op, (ast.Add, ast.Mult, ast.Sub)):
+            env[s.target.id] = ev(ast.BinOp(left=ast.Name(id=s.target.id, ctx=ast.Load()), op=s.op, right=s.value), env)
+            continue
         if isinstance(s, ast.Pass):
             continue
         raise Unsupported("statement " + U(s)[:60])
